@@ -253,7 +253,7 @@ def _run_subprocess_shards(jobs):
                 json.dump(list(job), f)
             env = dict(os.environ)
             env["PYTHONHASHSEED"] = str(shard)
-            procs.append((subprocess.Popen([sys.executable, "-W", "ignore", "-m", "bbv.run", "--shard", inp, outp], env=env,
+            procs.append((subprocess.Popen([sys.executable, "-W", "ignore", "-m", "bbv.cli", "--shard", inp, outp], env=env,
                                            stdout=subprocess.PIPE, stderr=subprocess.STDOUT, text=True), outp))
         results = []
         for pr, outp in procs:
